@@ -256,6 +256,10 @@ def r6_flushed_before_success(ctx):
 def run(ctx):
     from . import effects
     effects.check_property(ctx, "C04")    # R04.E: no operation on shared protocol state outside the reviewed table
+    from . import C03 as _C03d, C05 as _C05d, C09 as _C09d
+    _C03d.r3_totality(ctx)           # the decoder is total: no frame the peer may legally send (any command byte, any declared length) makes it return an error
+    _C05d.r6_padding0(ctx)          # the preamble announces exactly the padding it then sends (the drawn size clamped into 0..65535 on both uses): the server skips what was announced
+    _C09d.r3_recv_exits(ctx)        # a Waste frame of any legal size is consumed like any other frame: the decoder never refuses one (a refusal ends the receive loop with the session left open)
     from . import C11
     C11.r6_every_write_under_buffer_lock(ctx)   # the records of one packet (payload pieces and their Waste frames) are not interleaved with another writer's
     C11.r2_contiguity(ctx)
